@@ -193,3 +193,21 @@ Definition DHCP4_specs : stable :=
    sp "ParseOptions" (fun l => VL (map (fun cr => VL [VN (fst cr); VR (fst (snd cr)) (snd (snd cr))]) (dhcp_opt_map l)));
    sp "SIAddr" (scopy 20 4); sp "SName" (scstring 44 64); sp "Secs" (sfield 64 16); sp "String" sreturns;
    sp "XId" (srange 4 4); sp "YIAddr" (scopy 16 4)].
+
+(* ---- LLDP.Type / LLDP.Capability: IEEE 802.1AB.  TLV type values (table 8-1): 0 End Of LLDPDU, 1 Chassis ID,
+   2 Port ID, 3 Time To Live, 4 Port Description, 5 System Name, 6 System Description, 7 System Capabilities,
+   8 Management Address (the library's own labels for them); any other type prints as its number.
+   System capabilities (8.5.8, table 8-4): a 16-bit map, bit 0 (least significant) Other, 1 Repeater, 2 Bridge,
+   3 WLAN access point, 4 Router, 5 Telephone, 6 DOCSIS cable device, 7 Station only -- i.e. of the two octets the
+   LAST bit of the second octet is Other (bit offset 15 in the numbering of [bits]), listed Other first. ---- *)
+Definition lldp_type_table : list (N * string) :=
+  [(0, "endpdu"); (1, "chassisID"); (2, "port"); (3, "ttl"); (4, "portdesc"); (5, "name"); (6, "description");
+   (7, "capabilities"); (8, "mngntaddr")].
+Definition lldp_cap_table : list (nat * string) :=
+  [(15%nat, "other"); (14%nat, "repeater"); (13%nat, "bridge"); (12%nat, "AP"); (11%nat, "router"); (10%nat, "phone");
+   (9%nat, "docsis"); (8%nat, "station")].
+Fixpoint join_comma (l : list string) : string :=
+  match l with [] => "" | [a] => a | a :: r => a ++ "," ++ join_comma r end.
+Definition lldp_capability_spec (v : bytes) : string :=
+  if Nat.ltb (blen v) 2 then "" else
+  join_comma (map snd (filter (fun bn => bits v (fst bn) 1 =? 1) lldp_cap_table)).
